@@ -17,7 +17,11 @@ import (
 	"github.com/formancehq/ledger/xverif/lib/recbackend"
 )
 
-func init() { checks["C07"] = c07 }
+func init() {
+	checks["C07"] = func() int { return clientWrites("C07") }
+	// C06 judges the same client-level sequences: every write that reports success has its entry, a refused one has none
+	checks["C06"] = func() int { return clientWrites("C06") }
+}
 
 // one write as a client sends it
 type c07Req struct {
@@ -27,6 +31,7 @@ type c07Req struct {
 	Body   string
 	Kind   string // log type this write produces
 	Bulk   bool   // the key travels inside the bulk element ("ik"), not in the header
+	N      int    // entries a fresh, successful execution appends (0 = 1)
 }
 
 func c07Requests() []c07Req {
@@ -44,6 +49,11 @@ func c07Requests() []c07Req {
 			Body: `[{"action":"CREATE_TRANSACTION","ik":"%KEY%","data":` + tx + `}]`},
 		{Name: "bulk-meta", Method: "POST", Path: "_bulk", Bulk: true, Kind: "SET_METADATA",
 			Body: `[{"action":"ADD_METADATA","ik":"%KEY%","data":{"targetType":"ACCOUNT","targetId":"a","metadata":{"m":"1"}}}]`},
+		// a keyed element next to an element without key: the key belongs to its element only
+		{Name: "bulk-keyed-then-plain", Method: "POST", Path: "_bulk", Bulk: true, Kind: "NEW_TRANSACTION", N: 2,
+			Body: `[{"action":"CREATE_TRANSACTION","ik":"%KEY%","data":` + tx + `},{"action":"CREATE_TRANSACTION","data":` + tx2 + `}]`},
+		{Name: "bulk-plain-then-keyed", Method: "POST", Path: "_bulk", Bulk: true, Kind: "NEW_TRANSACTION", N: 2,
+			Body: `[{"action":"ADD_METADATA","data":{"targetType":"ACCOUNT","targetId":"a","metadata":{"m":"1"}}},{"action":"CREATE_TRANSACTION","ik":"%KEY%","data":` + tx + `}]`},
 	}
 }
 
@@ -141,9 +151,9 @@ func c07Run(api string, reqs []c07Req, steps []c07Step, sent *int64) ([]c07Answe
 
 // c07: the key as a client sends it (Idempotency-Key header, "ik" of a bulk element) through the real v1 / v2 routers onto a
 // real Commander: every pair (and triple, with a restart in between) of writes x key assignment.
-func c07() int {
+func clientWrites(prop string) int {
 	silenceStderr() // the router's recoverer prints the stack of every handler panic
-	rep := evid.NewReporter("C07", "model_checking")
+	rep := evid.NewReporter(prop, "model_checking")
 	reqs := c07Requests()
 	var sent, states int64
 	var samples evid.Samples
@@ -156,7 +166,7 @@ func c07() int {
 	for _, api := range []string{"v2/", ""} {
 		for i := range reqs {
 			for j := range reqs {
-				for _, keys := range [][2]string{{"k", "k"}, {"k", "K"}, {"k", "k "}, {"k", ""}, {"", ""}, {"k1", "k2"}} {
+				for _, keys := range [][2]string{{"k", "k"}, {"k", "K"}, {"k", "k "}, {"k", ""}, {"", ""}, {"k1", "k2"}, {"raw\xffkey", "raw\xffkey"}} {
 					for _, restart := range []bool{false, true} {
 						seqs = append(seqs, seq{api, []c07Step{{Req: i, Key: keys[0]}, {Req: j, Key: keys[1], Restart: restart}}})
 					}
@@ -187,7 +197,9 @@ func c07() int {
 		}
 		desc := label + " " + strings.Join(names, " ; ")
 		replay := map[string]interface{}{"engine": "ikhttp", "api": label, "steps": names}
-		viol := func(kind, why string) { rep.Violation(kind+":"+reqs[sq.steps[len(sq.steps)-1].Req].Name, why+" ["+desc+"]", replay) }
+		viol := func(kind, why string) {
+			rep.Violation(kind+":"+reqs[sq.steps[len(sq.steps)-1].Req].Name, why+" ["+desc+"]", replay)
+		}
 		if fatal != "" {
 			viol("panic", fatal)
 			return
@@ -216,7 +228,8 @@ func c07() int {
 			if !ok {
 				continue
 			}
-			rows := byKey[s.Key]
+			// (the stored form of a key is JSON text: bytes that are not valid UTF-8 can only be kept as U+FFFD)
+			rows := byKey[strings.ToValidUTF8(s.Key, "\uFFFD")]
 			if len(rows) == 0 {
 				viol("ik-not-recorded", fmt.Sprintf("step %d reported success with key %q but no entry carries that key (keys recorded: %v)", i, s.Key, keysOf(byKey)))
 				return
@@ -242,7 +255,11 @@ func c07() int {
 			okN := 0
 			for i := range sq.steps {
 				if answers[i].Status >= 200 && answers[i].Status < 300 {
-					okN++
+					n := reqs[sq.steps[i].Req].N
+					if n == 0 {
+						n = 1
+					}
+					okN += n
 				}
 			}
 			if len(sq.steps) == 2 && len(logs)-1 != okN {
@@ -258,7 +275,7 @@ func c07() int {
 		"traces_validated_against_impl": int(states),
 		"samples":                       samples.Got,
 		"exhaustive":                    true,
-		"rule":                          fmt.Sprintf("client-level part: every ordered pair of %d write requests (create, revert, set / delete metadata on accounts and transactions, bulk elements) x 6 key assignments (same key, case / padding variants, one keyed, none, distinct) x with/without a restart in between [thorough: + triples], sent through the real v1 and v2 routers (Idempotency-Key header, ik of a bulk element) onto a real Commander over memstore; states = sequences, transitions = requests", len(reqs)),
+		"rule":                          fmt.Sprintf("client-level part: every ordered pair of %d write requests (create, revert, set / delete metadata on accounts and transactions, bulk elements) x 7 key assignments (same key, case / padding variants, one keyed, none, distinct, a key that is not valid UTF-8) x with/without a restart in between [thorough: + triples], sent through the real v1 and v2 routers (Idempotency-Key header, ik of a bulk element) onto a real Commander over memstore; states = sequences, transitions = requests", len(reqs)),
 	}
 	return rep.Finish(cov)
 }
